@@ -29,7 +29,7 @@
 (*             finish | return                                              *)
 (*   close   : (Drop) wait for background work | release lock | join worker *)
 (*   destroy : open LOCK | try-lock | validate | delete | unlink LOCK |     *)
-(*             release | return                                             *)
+(*             release | remove the empty root directory | return           *)
 (*                                                                         *)
 (* The design written here: the lock is taken before anything is touched,   *)
 (* released only after background work has stopped, destroy deletes only    *)
@@ -45,8 +45,10 @@ CONSTANTS
   Bug_ReleaseBeforeBgStops,    \* Drop releases the lock without waiting for background work
   Bug_DestroyIgnoresLock,      \* destroy deletes although the try-lock failed
   Bug_OpenTruncatesOnFailure,  \* open truncates/creates database files before it has the lock
-  Bug_UnlinkLockAfterRelease   \* destroy releases the lock and THEN unlinks LOCK, and nobody
+  Bug_UnlinkLockAfterRelease,  \* destroy releases the lock and THEN unlinks LOCK, and nobody
                                \* validates the inode (this is what db.rs does at the pinned commit)
+  Bug_DestroyWipesAfterRelease \* the last step of destroy - removing the root directory, made
+                               \* after the lock is released - removes it WITH whatever is in it
 
 VARIABLES
   pc,       \* [Procs -> label]
@@ -73,7 +75,7 @@ Inodes == 1..MaxIno
 Rest == {"idle", "held"}
 OpenPcs == {"o_pre", "o_fd", "o_try", "o_chk", "o_rec", "o_fin", "o_ret"}
 ClosePcs == {"c_wait", "c_rel", "c_join"}
-DestroyPcs == {"d_fd", "d_try", "d_chk", "d_del", "d_unl", "d_rel", "d_ret"}
+DestroyPcs == {"d_fd", "d_try", "d_chk", "d_del", "d_unl", "d_rel", "d_rmd", "d_ret"}
 
 TypeOK ==
   /\ pc \in [Procs -> Rest \cup OpenPcs \cup ClosePcs \cup DestroyPcs]
@@ -330,8 +332,25 @@ DestroyRelease(p) ==
      ELSE UNCHANGED <<owner, fd>>
   /\ IF Bug_UnlinkLockAfterRelease
      THEN Goto(p, "d_unl") /\ UNCHANGED res
-     ELSE Goto(p, "d_ret") /\ res' = [res EXCEPT ![p] = "ok"]
+     ELSE Goto(p, "d_rmd") /\ UNCHANGED res
   /\ UNCHANGED <<handle, lockIno, dbState, bg, intr, wrote, wins, foul>>
+
+\* the last step, WITHOUT the lock: remove the root directory - only if it is (still) empty; an
+\* open that came in after the release has put a new LOCK file and a new database there, and
+\* then the removal fails and changes nothing
+DestroyRmdir(p) ==
+  /\ pc[p] = "d_rmd"
+  /\ IF lockIno = 0 /\ ~dbState.exists
+     THEN /\ res' = [res EXCEPT ![p] = "ok"]
+          /\ UNCHANGED <<lockIno, dbState, wrote, foul>>
+     ELSE IF Bug_DestroyWipesAfterRelease
+     THEN /\ res' = [res EXCEPT ![p] = "ok"]
+          /\ lockIno' = 0
+          /\ Mutate(p, Gone)
+     ELSE /\ res' = [res EXCEPT ![p] = "err"]
+          /\ UNCHANGED <<lockIno, dbState, wrote, foul>>
+  /\ Goto(p, "d_ret")
+  /\ UNCHANGED <<handle, fd, owner, bg, intr, wins>>
 
 DestroyReturn(p) ==
   /\ pc[p] = "d_ret"
@@ -350,7 +369,7 @@ Progress(p) ==
   \/ BgWrite(p)
   \/ CloseWaitBg(p) \/ CloseRelease(p) \/ CloseJoin(p)
   \/ DestroyFd(p) \/ DestroyTryLock(p) \/ DestroyValidate(p) \/ DestroyDelete(p)
-  \/ DestroyUnlink(p) \/ DestroyRelease(p) \/ DestroyReturn(p)
+  \/ DestroyUnlink(p) \/ DestroyRelease(p) \/ DestroyRmdir(p) \/ DestroyReturn(p)
 
 Next == \E p \in Procs : Start(p) \/ Progress(p)
 
